@@ -169,7 +169,7 @@ Qed.
 Fixpoint addrs (p : ptr) : list Z :=
   match p with
   | PFixed a | PList a _ | PRem a _ => [a]
-  | PUList a _ inner _ _ _ => a :: match inner with Some q => addrs q | None => [] end
+  | PUList a _ inner pmb _ _ => a :: match inner with Some q => if pmb then addrs q else [] | None => [] end
   | PStruct fs => flat_map addrs fs
   | PEnum st _ q => st :: addrs q
   end.
@@ -182,7 +182,7 @@ Proof.
   - unfold in_range in H. zb. constructor; [lia|constructor].
   - apply andb_true_iff in H as [_ H]. apply orb_true_iff in H as [H|H]; unfold in_range in *; zb; (constructor; [lia|constructor]).
   - apply andb_true_iff in H as [H Hi]. apply andb_true_iff in H as [_ H]. unfold in_range in H. zb.
-    constructor; [lia|]. destruct inner as [q|]; [|constructor]. apply (IH q lo hi lo Hlh). exact Hi.
+    constructor; [lia|]. destruct inner as [q|]; [|constructor]. destruct pmb; [|constructor]. apply (IH q lo hi lo Hlh). exact Hi.
   - revert cursor H. induction fs as [|f fs IHfs]; intros cursor H; [constructor|].
     cbn [flat_map]. destruct (check_ptrs f lo hi cursor) as [b c1] eqn:E.
     destruct b; [|discriminate]. apply Forall_app. split.
